@@ -160,6 +160,7 @@ def zero_of(ty):
 class Executor:
     MAX_PATHS = 800
     MAX_STEPS = 400000      # instructions per path
+    MAX_VISITS = 100000     # visits of one block on one path (unwinding bound; lowered by harnesses that know the trip count)
     LOOP_CHECK = 6          # after this many visits of one block on a path, symbolic branches are feasibility-checked
 
     def __init__(self, mod, intrinsics, assumptions=(), stubs=None):
@@ -820,6 +821,8 @@ class Executor:
         fr.idx = 0
         key = (fr.fn.name, lab)
         st.visits[key] = st.visits.get(key, 0) + 1
+        if st.visits[key] > self.MAX_VISITS:
+            raise NotEncodable('step limit exceeded: block %s visited %d times on one path (unbounded loop?)' % (lab, st.visits[key]))
         # phis: parallel assignment
         blk = fr.fn.blocks[lab]
         new = {}
